@@ -189,6 +189,23 @@ pub fn gen_c06(seed: u64, _index: u64) -> KPlan {
                 }
             }
         }
+        // fast recovery still flagged just under the cap (reached in the field through a classic
+        // phase, whose ACK path never clears the flag, or on a link that only ever collects NAKs
+        // while the global increment inflates its window): time-based recovery steps there
+        if r.chance(0.05) {
+            events.push(KEv::SetWindow { link, window: r.range(1000, 2100) as i32 });
+            events.push(KEv::Send { link, n: 3 });
+            events.push(KEv::Nak { link, pick: 0 });
+            events.push(KEv::SetWindow { link, window: *r.pick(&[59_871, 59_880, 59_941, 59_970, 59_985, 59_993, 59_999, 60_000]) });
+            for _ in 0..r.range(1, 6) {
+                events.push(KEv::Advance { ms: *r.pick(&[501u64, 600, 2_100, 5_100, 7_100, 11_000]) });
+                if r.chance(0.5) {
+                    events.push(KEv::Recovery { link, velocity_milli: *r.pick(&[-1i64, 0, 1999, 2001]) });
+                } else {
+                    events.push(KEv::Tick { links_mask: 0xF });
+                }
+            }
+        }
         // stacked recovery ticks
         if r.chance(0.05) {
             for _ in 0..r.range(2, 40) {
